@@ -270,19 +270,29 @@ func (m *tabModel) step(ev string, started []string) {
 		changed := false
 		if p[2] != "alive" && p[2] != "nofetch" { // nofetch: the newer record could not be fetched, nothing to update
 			nr := mNode{id: id, seq: cur.seq + 1, ip: cur.ip, port: cur.port}
-			a := netip.MustParseAddr(cur.ip).As4()
-			switch p[2] {
-			case "newip":
-				a[3] ^= 1
-				nr.ip = netip.AddrFrom4(a).String()
-			case "newsubnet":
-				a[2] ^= 1
-				nr.ip = netip.AddrFrom4(a).String()
-			case "newport":
-				nr.port++
-			case "lowerseq":
-				nr.port++
-				nr.seq = 0
+			base := netip.MustParseAddr(cur.ip)
+			if v6 := !base.Is4() && !base.Is4In6(); p[2] == "newform" || v6 && (p[2] == "newip" || p[2] == "newsubnet") {
+				nr.ip = tabAltAddr(base, p[2]).String() // see tabFormAnswer
+			} else {
+				// the driver writes the answers below with VNode, which puts an IPv4 address
+				// into the "ip" entry whatever form the current record has
+				base = base.Unmap()
+				nr.ip = base.String()
+				switch p[2] {
+				case "newip":
+					a := base.As4()
+					a[3] ^= 1
+					nr.ip = netip.AddrFrom4(a).String()
+				case "newsubnet":
+					a := base.As4()
+					a[2] ^= 1
+					nr.ip = netip.AddrFrom4(a).String()
+				case "newport":
+					nr.port++
+				case "lowerseq":
+					nr.port++
+					nr.seq = 0
+				}
 			}
 			_, changed = m.bump(b, nr, false)
 		}
